@@ -236,6 +236,11 @@ class TabKit:
         ac = {a: col([level(r["al"][j], self.nal) for r in rows]) for j, a in enumerate(self.ids)}
         rw = {a: col([r["r"][j] for r in rows]) for j, a in enumerate(self.ids)}
         dn = {a: col([r["d"][j] for r in rows]) for j, a in enumerate(self.ids)}
+        # every component is keyed by agent id: handed over in different key orders (a batch is the same batch whatever the order)
+        self.nbatch = getattr(self, "nbatch", 0) + 1
+        if self.nbatch % 2 == 0:
+            rot = lambda d, k: {a: d[a] for a in (list(d)[k % len(d):] + list(d)[:k % len(d)])}
+            st, ac, rw, ns, dn = rot(st, 1), {a: ac[a] for a in reversed(list(ac))}, rot(rw, 2), {a: ns[a] for a in reversed(list(ns))}, rot(dn, 1)
         return (st, ac, rw, ns, dn)
 
     # ------------------------------------------------------------------ one learn step, observed
